@@ -42,7 +42,7 @@ C16_O5|Iora.C16.O5_framer_recovers|proved|the reference HTTP/1.1 framer applied 
 C16_O5_process|Iora.C16.O5_process_wire_safe|proved|what processHttpRequest sends for a parsed request is wire-safe whenever the handler left token field names, no LF in values, no Transfer-Encoding, a status in 200..999 and an API-consistent body (or a 204/304, whose body and Content-Length are dropped under every method after the FC16a repair)
 C16_O5_e2e|Iora.C16.O5_end_to_end|proved|capstone: responses wire-safe + fitting the socket buffer + issued in order (optionally followed by Close) => for every kernel / event-loop behaviour the reference framer splits what the client reads into exactly those responses
 C16_O1_wire|Iora.C16.O1_wire_partial|partial|pool + engine + framer composed: under OneInFlight, no overflow, workers idle and FitsBuffer, if the commands of a session's requests are the Sends of wire-safe responses rs (+ at most one final Close), the bytes the client reads split into exactly rs, in request order, for every kernel / event-loop behaviour
-C16_O1_drain|Iora.C16.O1_upgrade_drain|proved|accepted upgrade with bytes of the upgraded protocol buffered behind the request: the calls are the upgrade response (if the transport is up) followed by at most one Close, and the Close exactly when the virtual onUpgradedData threw (std or not) with the transport still up; never a second Send (FC16c repaired: the drain has its own catch (...) -> closeSession; on the unrepaired tree Gen.upgradeDrainGuarded is false and drainCalls_eq / processCalls_shape do not build)
+C16_O1_drain|Iora.C16.O1_upgrade_drain|proved|accepted upgrade with bytes of the upgraded protocol behind the request (buffered with it, or queued behind under the upgrade hold while the worker drains): the calls are the upgrade response (if the transport is up) followed by at most one Close; the drain is a loop, pass k hands the buffer to the virtual onUpgradedData; the Close exactly when some pass threw (std or not) with the transport still up; the hook is called once per pass up to and including the first throwing one and never after; never a second Send (FC16c; on a tree without the drain's own catch (...) Gen.upgradeDrainGuarded is false and drainLoop_eq / processCalls_shape do not build)
 C16_O1_overflow_env|Iora.C16.O1_overflow_every_env|proved|sendErrorResponse on pool overflow in every environment: nothing while `_transport && !_shutdown` fails, otherwise 503 Send + Close, and the Close also when the engine refused the Send (never open-and-unanswered); on a running server these are the overflowCmds of the pool theorems
 C16_O1_restart|Iora.C16.O1_restart|proved|across any schedule of arrivals, picks, emits, stop() and start() calls on one HttpServer object every engine command reaches the transport its request arrived on — a worker that outlives stop()'s 2 s drain wait never addresses the next transport, whose session ids start at 1 again (FC16e repaired: epoch captured at dispatch, compared inside all 7 guarded blocks; does not build on the unrepaired tree)
 C16_O1_restart_unguarded|Iora.C16.O1_restart_unguarded_refuted|proved|what FC16e's repair prevents: for the worker without the epoch check the statement is false (witness: arrive on session 1, pick, stop, start, emit: a generation-0 request's Send is delivered by the generation-1 transport)
@@ -80,8 +80,10 @@ NOT_PROVED = [
     "across stop()/start() on one server object (FC16e, repaired) the restart model abstracts the server to (generation, up, tasks, log); what a HANDLER sends through the "
     "sid-addressed API (sendRaw / sendRawForSse / closeSession, and the upgrade drain's closeSession) after a restart has the same exposure as the unrepaired dispatcher had and is "
     "outside the model — stop() still gives up on running handlers after 2 s",
-    "the buffer drain of the upgrade arm is modelled on the worker thread only (O1_upgrade_drain); onUpgradedData called directly by the I/O thread for later reads of an upgraded session "
-    "(handleIncomingData's first block) has no try at all and is outside the model, as is what the hook itself sends (sendRaw)",
+    "the drain loop of the upgrade arm is modelled on the worker thread (O1_upgrade_drain; how many passes find bytes is an environment input, Env.drainChunks — that the upgrade hold "
+    "queues every read behind the buffered bytes in arrival order and that each byte reaches the hook exactly once is property C18's, tied here by lockstep through the real "
+    "handleIncomingData with reads arriving during the hook); onUpgradedData called directly by the I/O thread once the hold is released has no try at all and is outside the model, "
+    "as is what the hook itself sends (sendRaw)",
     "Gen facts consumed only by the model's definitions (wire text / driver parameters) and tied by lockstep, no theorem depends on their value: maxRequestTargetSize, listValuedHeaders, "
     "serverHeader, statusTexts, poolInitial, poolMax, sessionDefaultVersion; pinned by a conformance theorem: the parser statuses (gen_parse_status_table), poolQueueCap <= maxWriteQueue, "
     "stopDrainSeconds, dispatchChecksGeneration, upgradeDrainGuarded (gen_restart_and_write_queue, O1_upgrade_drain)",
@@ -576,27 +578,56 @@ def ws_frame(rng):
     return bytes([0x81, 0x80 | len(payload)]) + mask + bytes(b ^ mask[i % 4] for i, b in enumerate(payload))
 
 
+def ws_junk(rng):
+    """bytes of an upgraded protocol that would confuse an HTTP scanner: a mask-key-0 text frame whose payload contains CR LF CR LF"""
+    payload = rng.choice([b"a\r\n\r\nb", b"GET / HTTP/1.1\r\n\r\n", b"\r\n\r\n"])
+    return bytes([0x81, 0x80 | len(payload), 0, 0, 0, 0]) + payload
+
+
+def expected_hook_calls(chunks, marked, sess, mode):
+    """what the generator scripted: passes of the drain loop that find bytes, and how many of them run before the loop is left"""
+    n = len(chunks) if (chunks and marked and sess != "-") else 0
+    if mode == "0":
+        return n, n, False
+    at = int(mode.split("@")[1]) if "@" in mode else 0
+    if at < n:
+        return n, at + 1, True
+    return n, n, False
+
+
 def gen_drain_cases(ctx, rng, n):
-    """Accepted upgrade + bytes of the upgraded protocol behind the request in the same read: the worker feeds them to the third
-    virtual hook (onUpgradedData) AFTER the upgrade response went out.  One request => the 101 and nothing else, whatever the hook does."""
+    """Accepted upgrade + bytes of the upgraded protocol behind the request — in the same read and in reads that arrive while the worker
+    drains (queued behind under the upgrade hold): the worker feeds them, pass by pass, to the third virtual hook (onUpgradedData) AFTER the
+    upgrade response went out.  One request => the 101 and nothing else, whatever the hook does at whichever pass; a throw => one Close and
+    the loop is left.  Half of the cases go through the real handleIncomingData (op dispatchr: the hold is set by the real code)."""
     cases = []
-    for _ in range(n):
-        mode = rng.choice(["0", "thr", "thx", "thr", "thx"])
+    for ci in range(n):
+        mode = rng.choice(["0", "thr", "thx", "thr@1", "thx@1", "thx@2", "thr@0", "thx@5"])
+        mark = not rng.chance(1, 6)
         up_sc = rng.choice(["st:101," + sc_header(b"Upgrade", b"websocket"), "st:101", "st:101," + sc_header(b"Upgrade", b"websocket") + "," + sc_header(b"Connection", b"Upgrade"),
                             "st:200," + sc_content(b"switched")])
+        if mark:
+            up_sc = up_sc + ",mark" if rng.chance(1, 2) else "mark," + up_sc
         ops = ["reset", "route GET %s %s" % (hexs(b"/a"), sc_content(b"alpha")), "hook upgrade %s" % up_sc, "hook drain %s" % mode]
         first = len(ops)
         reqs = []
+        real_path = ci % 2 == 1
         for _ in range(rng.range(1, 4)):
             meth, path = rng.choice([(b"GET", b"/ws"), (b"GET", b"/a"), (b"HEAD", b"/a"), (b"POST", b"/ws")])
             d = build_request(rng, meth, path, upgrade=(rng.choice([b"Upgrade", b"upgrade", b"UPGRADE"]), b"websocket"), conn=rng.choice([None, b"Upgrade", b"keep-alive, Upgrade"]),
                               body=b"xy" if meth == b"POST" else b"")
-            residual = b"" if rng.chance(1, 5) else ws_frame(rng)
-            env = pick_env(rng) if rng.chance(1, 3) else "010111"
-            sess = rng.choice(["d"] * 8 + ["-", "v10"])
-            ops.append("req %s %s %s %s" % (hexs(d), env, sess, hexs(residual)))
+            chunks = [] if rng.chance(1, 6) else [rng.choice([ws_frame, ws_frame, ws_junk])(rng) for _ in range(rng.choice([1, 1, 2, 3, 4]))]
+            tok = ",".join(hexs(c) for c in chunks) if chunks else "-"
+            if real_path:
+                env, sess = "010111", "d"
+                ops.append("dispatchr %s %s" % (hexs(d), tok))
+            else:
+                env = pick_env(rng) if rng.chance(1, 3) else "010111"
+                sess = rng.choice(["d"] * 8 + ["-", "v10"])
+                ops.append("req %s %s %s %s" % (hexs(d), env, sess, tok))
+            nfound, ncalls, throws = expected_hook_calls(chunks, mark, sess, mode)
             reqs.append({"method": meth.decode(), "wellformed": True, "env": env, "sess": sess, "upgrade": True, "conn_last": None,
-                         "drain": mode, "residual": len(residual) > 0 and sess != "-"})
+                         "drain": mode, "chunks": len(chunks), "marked": mark, "passes": nfound, "hook_calls": ncalls, "drain_throws": throws})
         cases.append({"cat": "upgrade-drain", "ops": ops, "first_req": first, "reqs": reqs, "api_only": False, "may_suppress": False,
                       "hook_upgrade": True, "scripts": []})
     return cases
@@ -808,9 +839,9 @@ def monitor_case(c, impl):
             if not op.startswith(("dispatch", "overflow")):
                 continue
             o = parse_outcome(l)
-            if o["kind"] == "unexpected-commands" and l.split()[-1].count("S") + l.split()[-1].count("F") >= 2:
+            if o["kind"] == "unexpected-commands" and l.split()[1].count("S") + l.split()[1].count("F") >= 2:
                 bad.append("O1: one request dispatched through handleIncomingData/the pool produced %d sendAsync calls (engine events %s) — a second response for the same request: %s"
-                           % (l.split()[-1].count("S") + l.split()[-1].count("F"), l.split()[-1], op[:100]))
+                           % (l.split()[1].count("S") + l.split()[1].count("F"), l.split()[1], op[:100]))
             elif o["kind"] != "respond":
                 bad.append("O1: a request dispatched through handleIncomingData/the pool got `%s` instead of exactly one response: %s" % (l[:60], op[:80]))
             elif c["cat"] == "overflow":
@@ -824,9 +855,9 @@ def monitor_case(c, impl):
         o = parse_outcome(l)
         env = r["env"]
         up = env == "010111"
-        if o["kind"] == "unexpected-commands" and l.split()[-1].count("S") + l.split()[-1].count("F") >= 2:
+        if o["kind"] == "unexpected-commands" and l.split()[1].count("S") + l.split()[1].count("F") >= 2:
             bad.append("O1: one request produced %d sendAsync calls (engine events %s: S = Send accepted, F = refused, X = Close) — a second response for the same request: %s"
-                       % (l.split()[-1].count("S") + l.split()[-1].count("F"), l.split()[-1], op[:100]))
+                       % (l.split()[1].count("S") + l.split()[1].count("F"), l.split()[1], op[:100]))
             continue
         if l.startswith("throw") or l.startswith("crash:") or o["kind"] in ("unexpected-commands", "unexpected-session", "?"):
             bad.append("O1: processHttpRequest threw / crashed / issued an impossible command sequence: %s -> %s" % (op[:80], l[:80]))
@@ -834,13 +865,22 @@ def monitor_case(c, impl):
         if up and o["kind"] == "closeonly":
             bad.append("O1: a complete request got a close and no response although the server is up: %s" % op[:100])
             continue
-        if c["cat"] == "upgrade-drain" and up and r["sess"] != "-":
-            # the generator knows what it scripted: accepted upgrade => the hook's response; a Close exactly when buffered bytes met a throwing hook
-            want_close = r["residual"] and r["drain"] != "0"
+        if c["cat"] == "upgrade-drain" and up:
+            # the generator knows what it scripted: accepted upgrade => the hook's response; a Close exactly when some pass of the drain loop met a
+            # throwing hook; the hook is called once per pass up to and including that one
+            want_close = r["drain_throws"]
+            m = re.search(r" hooks=(\d+)$", l)
+            calls = int(m.group(1)) if m else None
+            what = "accepted upgrade, %d chunk(s) behind the request (%d pass(es) of the drain loop find bytes; session %s), onUpgradedData scripted `%s`" % (
+                r["chunks"], r["passes"], "marked upgraded" if r["marked"] else "NOT marked upgraded", r["drain"])
+            if o["kind"] == "upgrade-hold-not-released":
+                bad.append("O1: %s: processHttpRequest returned with the upgrade hold (_upgradePending) still set — later reads of the connection are never parsed: %s" % (what, op[:80]))
+                continue
             if o["kind"] != "respond" or o["close"] != want_close:
-                bad.append("O1: accepted upgrade, %s bytes buffered behind the request, onUpgradedData %s: want the upgrade response %s, got `%s`: %s"
-                           % ("some" if r["residual"] else "no", {"0": "returns", "thr": "throws std::exception", "thx": "throws a non-std type"}[r["drain"]],
-                              "followed by a close" if want_close else "and no close", l[:60], op[:80]))
+                bad.append("O1: %s: want the upgrade response %s, got `%s`: %s" % (what, "followed by one close" if want_close else "and no close", l[:60], op[:80]))
+                continue
+            if calls is not None and calls != r["hook_calls"]:
+                bad.append("O1: %s: want %d call(s) of onUpgradedData (one per pass, none after a throw), got %d: %s" % (what, r["hook_calls"], calls, op[:80]))
                 continue
         if up:
             if o["kind"] == "sendfailed":
